@@ -2,6 +2,7 @@ import DryocVerif.Proofs.SecretBox
 import DryocVerif.Proofs.ResidueExtra
 import DryocVerif.Properties.C01
 import DryocVerif.Properties.C03
+import DryocVerif.Proofs.GenPoly1305
 /-
 C02 — the decision procedure of opening.
 
@@ -1468,5 +1469,15 @@ example : (Model.SecretStream.initState C03.toyP (zeros 16 ++ [1] ++ zeros 7) (z
   stream_initState_nonce_ne C03.toyP _ _ _ (by decide)
 
 end NonVacuity
+
+/-- the authenticator of a box is computed by `Poly1305::update` over the whole ciphertext in one call; its one length
+computation (where the whole blocks end), translated from /repo/src/poly1305/poly1305_soft.rs on every run, is
+`m.len() − m.len() mod 16` for EVERY length — no word width is involved, so boxes of 4 GiB and more are authenticated like
+short ones (the run reaches such sizes only in the thorough tier of C07, op `poly1305_huge`) -/
+theorem translated_poly1305_update_split (n : Nat) :
+    Gen.Poly1305.update_full_blocks_end n = n - n % 16 ∧ 16 ∣ Gen.Poly1305.update_full_blocks_end n ∧
+      n - Gen.Poly1305.update_full_blocks_end n < 16 :=
+  ⟨Proofs.GenPoly1305.update_full_blocks_end_eq n, (Proofs.GenPoly1305.update_full_blocks_end_spec n).1,
+   (Proofs.GenPoly1305.update_full_blocks_end_spec n).2.2⟩
 
 end DryocVerif.Properties.C02
